@@ -9,6 +9,7 @@ import (
 	"go/types"
 	"regexp"
 	"regexp/syntax"
+	"sort"
 	"sync"
 	"unicode"
 
@@ -290,6 +291,107 @@ func fixedShape(pattern string) (offs [][2]int, total int, ok bool) {
 	return offs, total, true
 }
 
+// deleteMatches: ReplaceAllString(s, "") on a string with symbolic bytes, for two pattern shapes:
+//   - a single character class, optionally repeated with + or *: every matching byte disappears (one fork per
+//     symbolic byte);
+//   - an alternation of literals anchored at the end, (A|B|C)$: the longest literal that is a suffix disappears.
+func (i *interpreter) deleteMatches(pattern string, s value) value {
+	re, err := syntax.Parse(pattern, syntax.Perl)
+	if err != nil {
+		unsup("regexp parse %q: %v", pattern, err)
+	}
+	bs := strBytes(s)
+	c := i.run.ctx
+	// shape 1
+	cls := re
+	if cls.Op == syntax.OpPlus || cls.Op == syntax.OpStar {
+		cls = cls.Sub[0]
+	}
+	if cls.Op == syntax.OpCharClass || (cls.Op == syntax.OpLiteral && len(cls.Rune) == 1) {
+		inst := &syntax.Inst{Op: syntax.InstRune, Rune: cls.Rune}
+		if cls.Op == syntax.OpLiteral {
+			inst = &syntax.Inst{Op: syntax.InstRune1, Rune: cls.Rune}
+		}
+		var out []value
+		for _, b := range bs {
+			if i.branch(i.runeCond(inst, i.term(b))) {
+				continue
+			}
+			out = append(out, b)
+		}
+		return normStr(out)
+	}
+	// shape 2
+	if re.Op == syntax.OpConcat && len(re.Sub) == 2 && re.Sub[1].Op == syntax.OpEndText {
+		alt := re.Sub[0]
+		if alt.Op == syntax.OpCapture {
+			alt = alt.Sub[0]
+		}
+		var lits []string
+		ok := true
+		switch alt.Op {
+		case syntax.OpLiteral:
+			lits = []string{string(alt.Rune)}
+		case syntax.OpAlternate:
+			for _, a := range alt.Sub {
+				if a.Op != syntax.OpLiteral || a.Flags&syntax.FoldCase != 0 {
+					ok = false
+					break
+				}
+				lits = append(lits, string(a.Rune))
+			}
+		case syntax.OpConcat:
+			// the parser factors common suffixes / prefixes of an alternation: fall back to the literals of the source text
+			ok = false
+		default:
+			ok = false
+		}
+		if !ok {
+			// (MWST|TVA|IVA)$ is parsed as (?:MWST|[IT]VA): recover the literals from the pattern text when it is a plain
+			// parenthesised alternation of alphanumerics
+			if m := regexp.MustCompile(`^\(([A-Za-z0-9|]+)\)\$$`).FindStringSubmatch(pattern); m != nil {
+				lits, ok = nil, true
+				for _, l := range regexpSplit(m[1]) {
+					lits = append(lits, l)
+				}
+			}
+		}
+		if ok && len(lits) > 0 {
+			sort.SliceStable(lits, func(a, b int) bool { return len(lits[a]) > len(lits[b]) })
+			for _, l := range lits {
+				if len(l) > len(bs) || len(l) == 0 {
+					continue
+				}
+				tail := bs[len(bs)-len(l):]
+				conj := make([]*smt.Term, len(l))
+				for k := range tail {
+					conj[k] = c.Eq(i.term(tail[k]), c.Int64(int64(l[k])))
+				}
+				if i.branch(c.And(conj...)) {
+					return normStr(append([]value(nil), bs[:len(bs)-len(l)]...))
+				}
+			}
+			return normStr(append([]value(nil), bs...))
+		}
+	}
+	unsup("regexp ReplaceAllString on a symbolic string: pattern shape not supported: %s", pattern)
+	return nil
+}
+
+func regexpSplit(s string) []string {
+	var out []string
+	cur := ""
+	for _, r := range s {
+		if r == '|' {
+			out = append(out, cur)
+			cur = ""
+			continue
+		}
+		cur += string(r)
+	}
+	return append(out, cur)
+}
+
 func matchPC(p *syntax.Prog) int {
 	for k := range p.Inst {
 		if p.Inst[k].Op == syntax.InstMatch {
@@ -375,10 +477,13 @@ func init() {
 		pat := regexpPatternAt(fr, args[0])
 		src, ok1 := args[1].(string)
 		repl, ok2 := args[2].(string)
-		if !ok1 || !ok2 {
-			unsup("regexp ReplaceAllString on a symbolic string")
+		if ok1 && ok2 {
+			return regexp.MustCompile(pat).ReplaceAllString(src, repl)
 		}
-		return regexp.MustCompile(pat).ReplaceAllString(src, repl)
+		if !ok2 || repl != "" {
+			unsup("regexp ReplaceAllString on a symbolic string with a non-empty replacement")
+		}
+		return fr.i.deleteMatches(pat, args[1])
 	}
 	intrinsics["(*regexp.Regexp).SubexpNames"] = func(fr *frame, args []value) value {
 		names := regexp.MustCompile(regexpPatternAt(fr, args[0])).SubexpNames()
